@@ -284,3 +284,108 @@ func storeLine(b *lib.Bundle) string {
 	}
 	return sb.String()
 }
+
+// ---------------------------------------------------------------------------------------------
+// Refusals of `Store` the model relies on (Model.lean: `succeeds`, `storageOk`): on a throw-away
+// chain, a block whose storage diff addresses a contract that does not exist must be refused by
+// the real Finalise (either source backend) and by the model; the same diff with the contract
+// deployed in the same block must be accepted by both; a block that does not extend the head
+// must be refused by both destination backends and by the model.
+// ---------------------------------------------------------------------------------------------
+
+func emptyDiff() *core.StateDiff {
+	return &core.StateDiff{StorageDiffs: map[felt.Felt]map[felt.Felt]*felt.Felt{}, Nonces: map[felt.Felt]*felt.Felt{},
+		DeployedContracts: map[felt.Felt]*felt.Felt{}, DeclaredV0Classes: []*felt.Felt{}, DeclaredV1Classes: map[felt.Felt]*felt.Felt{},
+		ReplacedClasses: map[felt.Felt]*felt.Felt{}, MigratedClasses: map[felt.SierraClassHash]felt.CasmClassHash{}}
+}
+
+func (h *harness) rejections(s int, r *lib.RNG) error {
+	w, err := newWorld(lib.NewRNG(uint64(1000+s)), s%2 == 1, lib.DefaultGenOptions())
+	if err != nil {
+		return err
+	}
+	check := func(what, line string, implAccepts bool) error {
+		ans, err := h.drv.Ask(line)
+		if err != nil {
+			return err
+		}
+		h.res.Compared(1)
+		h.res.Hit("store-refusal:" + what)
+		if (ans == "ok") != implAccepts {
+			h.res.Mismatch(lib.Mismatch{Sig: "model-store:" + what, Input: line, Model: ans, Impl: fmt.Sprintf("accepted=%v", implAccepts)})
+		}
+		return nil
+	}
+	if _, err := h.drv.Ask("reset"); err != nil {
+		return err
+	}
+	a, ghost := w.g.Addr(4), w.g.Addr(5)
+	d0 := emptyDiff()
+	d0.DeployedContracts[a] = lib.F(0xc000)
+	d0.StorageDiffs[a] = map[felt.Felt]*felt.Felt{*lib.F(1): lib.F(7)}
+	if err := w.nextWith(d0); err != nil {
+		return fmt.Errorf("rejections: block 0: %w", err)
+	}
+	if err := check("valid-block", storeLine(w.g.Head()), true); err != nil {
+		return err
+	}
+	head := w.g.Head().Block
+	// (1) storage of a contract that does not exist
+	bad := emptyDiff()
+	bad.StorageDiffs[ghost] = map[felt.Felt]*felt.Felt{*lib.F(1): lib.F(5)}
+	errBad := w.nextWith(bad)
+	line := fmt.Sprintf("store 1 dead %s 1 %s s=%s,1,5", hx(head.Hash), hx(head.GlobalStateRoot), hxv(ghost))
+	if errBad == nil {
+		// accepted by the real code: the chain moved on; mirror it so that the rest stays aligned
+		line = storeLine(w.g.Head())
+	}
+	if err := check("storage-of-undeployed-contract", line, errBad == nil); err != nil {
+		return err
+	}
+	if errBad == nil {
+		return nil
+	}
+	// (2) the same write with the contract deployed by the same diff
+	good := emptyDiff()
+	good.DeployedContracts[ghost] = lib.F(0xc001)
+	good.StorageDiffs[ghost] = map[felt.Felt]*felt.Felt{*lib.F(1): lib.F(5)}
+	errGood := w.nextWith(good)
+	if errGood != nil {
+		return fmt.Errorf("rejections: deploy-and-write refused: %w", errGood)
+	}
+	if err := check("storage-of-contract-deployed-in-same-block", storeLine(w.g.Head()), true); err != nil {
+		return err
+	}
+	// (3) a block that does not extend the head: the genesis block again
+	stale := w.g.Bundles[0]
+	accepted := false
+	for _, n := range w.nodes {
+		if err := lib.StoreOn(n.bc, stale); err == nil {
+			accepted = true
+		}
+	}
+	if err := check("block-not-extending-head", storeLine(stale), accepted); err != nil {
+		return err
+	}
+	// (4) a system contract needs no deployment
+	sys := emptyDiff()
+	sys.StorageDiffs[*lib.F(1)] = map[felt.Felt]*felt.Felt{*lib.F(9): lib.F(3)}
+	if err := w.nextWith(sys); err != nil {
+		return fmt.Errorf("rejections: system-contract write refused: %w", err)
+	}
+	return check("storage-of-system-contract", storeLine(w.g.Head()), true)
+}
+
+// nextWith finalises and stores a block with exactly this diff and no transactions.
+func (w *world) nextWith(d *core.StateDiff) error {
+	b, err := w.g.Next(&lib.BlockSpec{Version: "0.14.0", Diff: d, NoTxs: true})
+	if err != nil {
+		return err
+	}
+	for i, n := range w.nodes {
+		if err := lib.StoreOn(n.bc, b); err != nil {
+			return fmt.Errorf("node %d: %w", i, err)
+		}
+	}
+	return nil
+}
